@@ -9,6 +9,41 @@ mod parse;
 mod toast;
 
 use std::io::Write;
+use std::sync::atomic::{AtomicU64, Ordering};
+use std::sync::Mutex;
+
+/// Watchdog: C13 says the analysis terminates.  A case that runs longer than the limit makes the
+/// harness print `HANG <program>` on stderr and exit with code 3; check.py turns that into a
+/// violation with the program as replay instead of waiting forever.
+static CASE_START: AtomicU64 = AtomicU64::new(0);
+static CASE_PROG: Mutex<String> = Mutex::new(String::new());
+
+fn now_ms() -> u64 {
+    std::time::SystemTime::now().duration_since(std::time::UNIX_EPOCH).map(|d| d.as_millis() as u64).unwrap_or(0)
+}
+
+fn watched<T>(p: &ir::Prog, f: impl FnOnce() -> T) -> T {
+    if let Ok(mut g) = CASE_PROG.lock() {
+        *g = ir::w_prog(p);
+    }
+    CASE_START.store(now_ms().max(1), Ordering::SeqCst);
+    let r = f();
+    CASE_START.store(0, Ordering::SeqCst);
+    r
+}
+
+fn start_watchdog() {
+    let limit: u64 = std::env::var("VERIF_CASE_TIMEOUT_MS").ok().and_then(|s| s.parse().ok()).unwrap_or(20_000);
+    std::thread::spawn(move || loop {
+        std::thread::sleep(std::time::Duration::from_millis(250));
+        let t = CASE_START.load(Ordering::SeqCst);
+        if t != 0 && now_ms().saturating_sub(t) > limit {
+            let p = CASE_PROG.lock().map(|g| g.clone()).unwrap_or_default();
+            eprintln!("HANG {}", p);
+            std::process::exit(3);
+        }
+    });
+}
 
 fn arg(args: &[String], key: &str) -> Option<String> {
     args.iter().position(|a| a == key).and_then(|i| args.get(i + 1).cloned())
@@ -18,7 +53,7 @@ fn emit_group(out: &mut impl Write, profile: &str, meta: &str, progs: &[ir::Prog
     writeln!(out, "G {} {} {}", progs.len(), profile, meta).unwrap();
     for p in progs {
         writeln!(out, "P {}", ir::w_prog(p)).unwrap();
-        writeln!(out, "D {}", dump::analyze(p)).unwrap();
+        writeln!(out, "D {}", watched(p, || dump::analyze(p))).unwrap();
     }
 }
 
@@ -30,6 +65,7 @@ fn main() {
     let seed: u64 = arg(&args, "--seed").and_then(|s| s.parse().ok()).unwrap_or(1);
     let count: usize = arg(&args, "--count").and_then(|s| s.parse().ok()).unwrap_or(100);
     let profile = arg(&args, "--profile").unwrap_or_else(|| "wf".to_string());
+    start_watchdog();
     let stdout = std::io::stdout();
     let mut out = std::io::BufWriter::new(stdout.lock());
     match cmd.as_str() {
@@ -84,7 +120,7 @@ fn main() {
                         }
                         c.escapes = i % 10 == 9;
                         let prog = if i % 3 == 2 { gen::gen_wild_cfg(s, &c).0 } else { gen::gen_wf(s, &c) };
-                        let (flags, canon) = codec::check(&prog);
+                        let (flags, canon) = watched(&prog, || codec::check(&prog));
                         writeln!(out, "G 1 {} seed={s}", profile).unwrap();
                         writeln!(out, "P {}", ir::w_prog(&prog)).unwrap();
                         writeln!(out, "X {}", flags).unwrap();
@@ -94,7 +130,7 @@ fn main() {
                                 writeln!(out, "J {}", j).unwrap();
                             }
                         }
-                        writeln!(out, "D {}", dump::analyze(&prog)).unwrap();
+                        writeln!(out, "D {}", watched(&prog, || dump::analyze(&prog))).unwrap();
                     }
                     "flow" => {
                         let p = gen::gen_flow(s, i % 2 == 0);
@@ -146,7 +182,7 @@ fn main() {
                         writeln!(out, "G {} {}", pending.len(), h).unwrap();
                         for p in pending.iter() {
                             writeln!(out, "P {}", ir::w_prog(p)).unwrap();
-                            writeln!(out, "D {}", dump::analyze(p)).unwrap();
+                            writeln!(out, "D {}", watched(p, || dump::analyze(p))).unwrap();
                         }
                     }
                 }
